@@ -11,7 +11,7 @@ def fam_d15(case, failure):
         return False
     if "__forget_imports__" not in case["db"]:
         return False
-    tab = G.db_lookup_table(case["db"])
+    tab = G.db_lookup_table(case["db"], keep_empty=True)
     missing = failure.get("missing")
     if not isinstance(missing, list):
         return False
@@ -29,6 +29,8 @@ class C07(G.AutoImpBase):
     theorems = [
         "Pfb.C07.C07_success_heads_bound",
         "Pfb.C07.C07_success_resolves",
+        "Pfb.C07.C07_success_resolves_py",
+        "Pfb.AutoImp.PyW.pyUniv_sound",
         "Pfb.C07.C07_provenance",
         "Pfb.C07.C07_ambiguous_symbol",
         "Pfb.C07.C07_ambiguous",
